@@ -1,5 +1,6 @@
 import Sml.Props.C02
 import Sml.Lemmas.C02Pos
+import Sml.Props.C05Vec
 /- Axiom audit for property C02: only propext / Classical.choice / Quot.sound may appear. -/
 #print axioms Sml.C02.sound
 #print axioms Sml.C02.sound_stream
@@ -11,3 +12,6 @@ import Sml.Lemmas.C02Pos
 #print axioms Sml.C02.sound_reader_pos
 #print axioms Sml.C02.sound_decodeAll_pos
 #print axioms Sml.C02.sinceReset_spec
+#print axioms Sml.C02.sound_fallible
+#print axioms Sml.C02.sound_fallible_cap
+#print axioms Sml.C02.sound_stream_fallible
